@@ -1,6 +1,7 @@
 package fat2
 
 import (
+	"encoding/json"
 	"github.com/Factom-Asset-Tokens/factom"
 	"github.com/pegnet/pegnetd/zzverif/vrt"
 )
@@ -178,4 +179,26 @@ func VerifTickerDecode() {
 	// a near miss may happen to be another asset's canonical name ("p"+"PEG" is not; "pUSD"[1:] = "USD" is not)
 	vrt.Cover("near-miss")
 	vrt.Assert("C20.only-canonical-ticker-names-are-accepted", err != nil)
+}
+
+// VerifTupleRoundTrip: C20 "re-encoding any accepted batch yields an entry that decodes to the same
+// transactions", at the level where the encoder is generic (struct tags) and the decoder is
+// hand-written: a transfer output tuple with an arbitrary amount - 0 included - is encoded by
+// encoding/json (object-level model: members follow the tags) and decoded by the real
+// UnmarshalJSON; it must be accepted and equal. (The input tuple's decoder reads its ticker through a
+// typed field, which the document model does not follow: outside.)
+func VerifTupleRoundTrip() {
+	vrt.Mode("jsonobj", 1)
+	var A factom.FAAddress
+	for i := range A {
+		A[i] = 0xA1
+	}
+	amt := vrt.U64("amount")
+	vrt.Cover("output-tuple")
+	t := AddressAmountTuple{Address: A, Amount: amt}
+	data, err := json.Marshal(t)
+	vrt.Assert("C20.encoded-tuple-decodes-to-the-same-tuple", err == nil)
+	var u AddressAmountTuple
+	derr := u.UnmarshalJSON(data)
+	vrt.Assert("C20.encoded-tuple-decodes-to-the-same-tuple", derr == nil && u.Address == A && u.Amount == amt)
 }
